@@ -76,7 +76,7 @@ def write7z(members, with_attrs=True, declared=None, per_file_folders=False):
         h += b"\x06" + num(0) + num(len(streams)) + b"\x09" + b"".join(num(len(d)) for d in streams) + b"\x00"
         h += b"\x07\x0b" + num(len(streams)) + b"\x00" + b"".join(num(1) + b"\x01\x00" for _d in streams)
         h += b"\x0c" + b"".join(num(z) for z in sizes) + b"\x00"
-        h += b"\x00"
+        h += b"\x08\x00\x00"
     elif streams:
         h += b"\x04"
         h += b"\x06" + num(0) + num(1) + b"\x09" + num(len(body)) + b"\x00"
@@ -557,6 +557,33 @@ def declared_sizes(limit=1000):
                             rp = report(f"7z ({'one folder per file' if per_file else 'solid'}): {label}", "decl.7z", data, "exhaust", bad[0])
                             rp["inputs"].update(max_memory_size=limit, declared_sizes=declared, actual_sizes={n: len(d) for n, d, _a in members})
                             return rp
+    finally:
+        ae._config = old
+    return None
+
+
+def name_collisions_7z(limit=1000):
+    """7z members are read back from the temp dir BY PATH: when two entries resolve to one path, the bytes read for a selected member
+    may be those of another entry -- one that is above the limit, a macOS fork, or simply a different member."""
+    from sharepoint2text.parsing.extractors import archive_extractor as ae
+    small, big = _txt("col-small"), _txt("col-big", 3 * limit // 20)
+    layouts = [("two entries named dup.txt: within the limit, then above it", [("dup.txt", small, ATTR_FILE), ("dup.txt", big, ATTR_FILE)], [_m("col-big")]),
+               ("a.txt, then __MACOSX/../a.txt", [("a.txt", small, ATTR_FILE), ("__MACOSX/../a.txt", _txt("col-fork"), ATTR_FILE)], [_m("col-fork")]),
+               ("a.txt within the limit, then ./a.txt above it", [("a.txt", small, ATTR_FILE), ("./a.txt", big, ATTR_FILE)], [_m("col-big")]),
+               ("sub/b.txt, then sub//b.txt above the limit", [("sub/b.txt", small, ATTR_FILE), ("sub//b.txt", big, ATTR_FILE)], [_m("col-big")])]
+    old = ae._config
+    ae._config = dataclasses.replace(old, max_memory_size=limit)
+    try:
+        with Sandbox() as sb:
+            for label, members, forbidden in layouts:
+                for per_file in (False, True):
+                    data = write7z(members, True, per_file_folders=per_file)
+                    results, problems = sb.run(data, "col.7z")
+                    bad = judge(label, "col.7z", results, problems, {"forbidden": forbidden}, [])
+                    if bad:
+                        rp = report(f"7z ({'one folder per file' if per_file else 'solid'}): {label}", "col.7z", data, "exhaust", bad[0])
+                        rp["inputs"].update(max_memory_size=limit, members=[(n, len(d)) for n, d, _a in members])
+                        return rp
     finally:
         ae._config = old
     return None
